@@ -42,6 +42,23 @@ func timeoutOf(s *Script) time.Duration {
 	return CallTimeout
 }
 
+// callCtx is the context of one execution: the script's deadline, and the
+// watchdog. Scripts without a deadline (or with a long one) are watched by
+// cancellation, which is not announced to the server.
+func callCtx(s *Script, watchdog time.Duration) (context.Context, context.CancelFunc) {
+	switch s.Deadline {
+	case "none":
+		ctx, cancel := context.WithCancel(context.Background())
+		t := time.AfterFunc(watchdog, cancel)
+		return ctx, func() { t.Stop(); cancel() }
+	case "long":
+		ctx, cancel := context.WithTimeout(context.Background(), 5*time.Minute)
+		t := time.AfterFunc(watchdog, cancel)
+		return ctx, func() { t.Stop(); cancel() }
+	}
+	return context.WithTimeout(context.Background(), watchdog)
+}
+
 // Env is the running infrastructure: scripted back-end, larking front.
 type Env struct {
 	Reg   *Registry
@@ -220,7 +237,7 @@ func (e *Env) Exec(s *Script) *Result {
 	did := e.callID("d")
 	drec := e.Reg.New(did)
 	callTimeout := timeoutOf(s)
-	dctx, dcancel := context.WithTimeout(context.Background(), callTimeout)
+	dctx, dcancel := callCtx(s, callTimeout)
 	t0 := time.Now()
 	res.DirectC = runGRPC(dctx, e.Back.Direct, s, did)
 	dcancel()
@@ -262,7 +279,7 @@ func (e *Env) Exec(s *Script) *Result {
 	// proxied execution
 	pid := e.callID("p")
 	prec := e.Reg.New(pid)
-	pctx, pcancel := context.WithTimeout(context.Background(), callTimeout)
+	pctx, pcancel := callCtx(s, callTimeout)
 	finished := make(chan struct{})
 	var dump string
 	var hungState BackT
@@ -405,6 +422,9 @@ func nClass(s *Script) string {
 			c += ",text=" + textClass(t)
 		}
 	}
+	if s.Unk != "" {
+		c += ",unknown-fields=" + s.Unk
+	}
 	return c
 }
 
@@ -431,6 +451,9 @@ func compare(s *Script, r *Result) []Diff {
 		}
 		if !reflect.DeepEqual(di.Recv, pi.Recv) {
 			add("backend-messages", nClass(s), "request messages at the back-end: proxied %v direct %v", pi.Recv, di.Recv)
+		}
+		if (s.Front == "grpc" || s.Front == "web") && di.Deadline != pi.Deadline {
+			add("backend-deadline", "deadline="+map[string]string{"": "default"}[s.Deadline]+s.Deadline, "deadline of the back-end handler's context: %s through larking, %s directly", pi.Deadline, di.Deadline)
 		}
 		if di.EOFAfter != pi.EOFAfter {
 			add("backend-half-close", nClass(s), "client half-close seen by the back-end after %d messages through larking, after %d directly (-1 = never; recv error %q)", pi.EOFAfter, di.EOFAfter, pi.RecvErr)
@@ -599,6 +622,8 @@ func setup(r *mon.Run) {
 		"downloads over sizes x message sizes; oracle = byte conservation at the back-end / client; media types with a registered codec (octet-stream, protobuf, json), foreign ones and none, on a streaming and a unary HttpBody-bound method; " +
 		"back-ends that fail the upload (after the half-close / before the response) x request media types without a codec x Accept absent / */* / json: the HTTP client gets the back-end's code, message and details. " +
 		"Hostile string values in message fields (trailing backslashes, escaped quotes, braces / brackets in strings, backslash spelled \\u005c) in the first / middle / last message of client-streaming and bidi calls on the JSON fronts. " +
+		"Unknown fields (varint, bytes, fixed32/64, a nested message, the highest field number) on every request message and reply of the binary fronts; " +
+		"the deadline the back-end handler's context carries (none / <1 min / >=1 min buckets; scripts use none, ten seconds, five minutes) on the gRPC and gRPC-web fronts. " +
 		"Compression values: absent, gzip, identity announced explicitly (gRPC, gRPC-web). " +
 		"Each script runs twice (direct / through larking); distinct = front x shape x plan family x message count x outcome x half-close-seen x metadata class."
 	r.Floor = 40
